@@ -480,6 +480,7 @@ def run(c, facts):
     R11 = c.rule('C17.R11', 'BINDING-SOUND: the binding relation the handlers answer from is the lexical one: binders live exactly as long as their construct, inner ones shadow outer ones (shared with C08.R1, C08.R2)')
     c.shared(R11, _c08.r1_innermost, 'C08.R1', facts)
     c.shared(R11, _c08.r2_pairing, 'C08.R2', facts)
+    c.run(lambda c: _c08.r14_same_winner(c, facts, rule='C17.R12'))      # of two parameters of one name the definition answered is the one evaluation uses
     c.run(r10_folder_registry, facts)
     c.run(r9_ident_identity, facts)
     c.run(r8_cursor_on_identifier, facts)
